@@ -5,9 +5,10 @@ pub mod c07;
 pub mod c09;
 pub mod c10;
 pub mod c11;
+pub mod c12;
 
 pub fn all() -> Vec<&'static PropDef> {
-    vec![&c01::DEF, &c07::DEF, &c09::DEF, &c10::DEF, &c11::DEF]
+    vec![&c01::DEF, &c07::DEF, &c09::DEF, &c10::DEF, &c11::DEF, &c12::DEF]
 }
 
 pub fn find(id: &str) -> Option<&'static PropDef> {
